@@ -501,6 +501,12 @@ func run(sc scenario) outcome {
 	}
 	crashed := e.crashed
 	x.out.Crashed, x.out.CrashDesc = crashed, e.crashDesc
+	if !crashed {
+		// crash points range over the steps of the history only. If this execution took fewer steps
+		// than the crash-free one it was derived from (scheduling at equal fake instants differs), the
+		// planned step was not reached: the plan is disarmed and this is a crash-free execution.
+		e.f.Crash.At = -1
+	}
 	e.mu.Unlock()
 
 	if crashed {
